@@ -11,10 +11,12 @@
 
    NOT proved here (sampled by the correspondence check and the document oracle only): the block structurers
    (epytext _tokenize/parse, docutils' reST parser, napoleon), epytext's inline coloriser _colorize
-   (C09_epytext_inline_conserves of DESIGN.md is NOT done), node2stan, extract_fields (class/module variables). *)
+   is proved for the markup without L{...}/U{...} links only (C09_epytext_inline_conserves_partial), node2stan,
+   extract_fields (class/module variables). *)
 From Coq Require Import ZArith NArith List Bool Arith String.
 From PydoctorVerif Require Import Base.Sexp Model.FieldTypes Gen.TablesC09 Model.Segments Model.Fields Model.Plaintext
-     Spec.Conserve Spec.Routing Proofs.SegmentsProofs Proofs.FieldsCount Proofs.FieldsTables Proofs.FieldsProofs.
+     Model.EpyInline Spec.Conserve Spec.Routing Spec.EpyMarkup Proofs.SegmentsProofs Proofs.FieldsCount Proofs.FieldsTables
+     Proofs.FieldsProofs Proofs.EpyInlineProofs.
 Import ListNotations.
 
 (* ---- code highlighting ------------------------------------------------------------------------------------- *)
@@ -210,6 +212,65 @@ Example C09_fields_hypotheses_satisfiable :
   map rp_field (snd (fst (render w_env w_fields))) = [7; 8].
 Proof. vm_compute. repeat split; reflexivity. Qed.
 
+
+Local Close Scope string_scope.
+
+(* ---- order of the parameter rows (resolve_types) ------------------------------------------------------------------ *)
+
+(* self.types -- the dict resolve_types iterates over -- starts with the parameters of the signature, in signature
+   order, whatever fields were handled; names that only have a @type come after. *)
+Theorem C09_param_order_signature_first :
+  forall E fs, is_function_obj E = true ->
+    exists extra, key_texts (st_types (handle_all E 0 fs (init_state E))) = sig_names E ++ extra.
+Proof. exact param_order_signature_first. Qed.
+
+(* The rows resolve_types builds (before the **kwargs shuffle) are: exactly one row per entry of self.types, in that
+   order -- leaving out only the FIRST entry when it is `self` of a method / `cls` of a class method AND no @param
+   documents it (kept_types) -- followed by the documented names that are not in self.types, in the order they were
+   first documented (a subsequence of the insertion-ordered params dict, containing exactly those names). *)
+Theorem C09_param_order :
+  forall E st,
+    let params := params_dict (st_pdescs st) in
+    forall new lft ai,
+      rt_loop E 0 (st_types st) params (match params with [] => false | _ => true end) = (new, lft, ai) ->
+      row_names new = key_texts (kept_types E (st_types st) params) /\
+      subseq lft params /\
+      (forall e, In e params -> (In e lft <-> existsb (text_eqb (pn_text (fst e))) (key_texts (st_types st)) = false)).
+Proof. exact param_order_rows. Qed.
+
+(* ... and the final list is that list (or the untouched parameter_descs when nothing is documented or annotated) with
+   at most one change: the last row whose name is the **kwargs parameter is moved to the end -- or left out, only when
+   it is undocumented (and explicit keywords are documented). *)
+Theorem C09_param_order_kwargs :
+  forall E st,
+    exists descs,
+      (st_pdescs (resolve_types E st) = descs \/
+       exists k, In k descs /\ is_kw_name k = true /\
+                 (st_pdescs (resolve_types E st) = remove_first k descs ++ [k] \/
+                  (pdesc_documented k = false /\ st_pdescs (resolve_types E st) = remove_first k descs))) /\
+      (descs = st_pdescs st \/
+       exists new lft ai, rt_loop E 0 (st_types st) (params_dict (st_pdescs st))
+                                  (match params_dict (st_pdescs st) with [] => false | _ => true end) = (new, lft, ai) /\
+                          descs = new ++ map snd lft).
+Proof. exact param_order_kwargs. Qed.
+
+(* def m(self, a, *args, b, **kw) documented out of order, with an unknown name and an explicit keyword *)
+Local Open Scope string_scope.
+Definition w_order_env : env :=
+  {| e_obj := OFunction FMethod;
+     e_sig := [({| pn_text := T "self"; pn_star := SNone |}, false); ({| pn_text := T "a"; pn_star := SNone |}, true);
+               ({| pn_text := T "args"; pn_star := SVar |}, false); ({| pn_text := T "b"; pn_star := SNone |}, false);
+               ({| pn_text := T "kw"; pn_star := SKw |}, true)];
+     e_ret := 2; e_ctor := []; e_unknown_base := false; e_gn := false |}.
+Example C09_param_order_example :
+  map (fun r => match row_name r with Some n => pn_text n | None => [] end)
+      (flat_map (fun s => if text_eqb (sec_label s) (T "Parameters") then sec_rows s else [])
+                (fst (fst (render w_order_env
+                   [fld "param" (Some "b"); fld "param" (Some "zz"); fld "keyword" (Some "k1"); fld "param" (Some "a");
+                    fld "type" (Some "kw"); fld "return" None]))))
+  = [T "a"; T "args"; T "b"; T "zz"; T "k1"; T "kw"].
+Proof. vm_compute. reflexivity. Qed.
+
 Local Close Scope string_scope.
 
 (* ---- plaintext ---------------------------------------------------------------------------------------------------- *)
@@ -224,3 +285,29 @@ Theorem C09_plaintext_exact :
 Proof.
   intros d. split; [cbn; rewrite !app_nil_r; reflexivity | reflexivity].
 Qed.
+
+(* ---- epytext inline markup -------------------------------------------------------------------------------------------- *)
+
+(* epytext._colorize on the text of one paragraph: for every well-formed sequence of characters, regions
+   C{..} M{..} I{..} B{..} (nested at will), literal brace groups {..}, escapes E{lb} E{rb} E{c} and symbols S{name}
+   (Spec.EpyMarkup.well_formed: no stray brace, known region letter, valid codes, no literal brace group right after a
+   capital letter), and whatever the two regex oracles answer: no error is reported and the text of the tree that
+   _to_node turns into docutils nodes is the written text with the delimiters removed, escapes and symbols replaced by
+   their character, everything else unchanged and in order.
+   `_partial`: L{...} and U{...} (whose label/target split is two regular expressions) are not covered by the theorem;
+   they are covered by the model/implementation correspondence and the generated-markup oracle only. *)
+Theorem C09_epytext_inline_conserves_partial :
+  forall (target_split : text -> option (text * text)) (link_target : etag -> text -> option text) (items : list mk),
+    well_formed false items = true ->
+    exists tree, colorize target_split link_target (show items) = (tree, []) /\ visible tree = shown items.
+Proof. exact colorize_conserves. Qed.
+
+(*  a B{b I{i}} {x} E{lb} S{alpha}  *)
+Definition w_inline : list mk :=
+  [MC 97; MC 32; MT 66 [MC 98; MC 32; MT 73 [MC 105]]; MC 32; MB [MC 120]; MC 32; ME [108; 98]; MC 32;
+   MS [97; 108; 112; 104; 97]]%N.
+Example C09_epytext_inline_hypotheses_satisfiable :
+  well_formed false w_inline = true /\
+  shown w_inline = [97; 32; 98; 32; 105; 32; 123; 120; 125; 32; 123; 32; 945]%N /\
+  snd (colorize (fun _ => None) (fun _ _ => None) (show w_inline)) = [].
+Proof. vm_compute. repeat split; reflexivity. Qed.
